@@ -130,6 +130,15 @@ def check_case(ctx, case):
         if not all_close(ref, edges.tolist(), rel=1e-12):
             viol('rule', '%s: edges %r, numpy rule on the distances within %r gives %r' % (
                 bname, edges.tolist(), eff, ref.tolist()))
+        else:
+            sel = dall[dall <= eff]
+
+            def cb_lin(f, edges=edges):
+                m = parse_nums(f[0])
+                if not all_close(m, edges.tolist(), rel=1e-9):
+                    viol('rule-linspace', '%s: edges %r are not %d equal-width classes between the smallest and largest '
+                         'selected distance: %r' % (bname, edges.tolist(), nl, [float(x) for x in m]))
+            ctx.lean.ask(['c02', 'linspace', fr(float(sel.min())), fr(float(sel.max())), str(nl)], cb_lin)
     elif bname in ('kmeans', 'ward'):
         centers = cluster_centers(bname, d[d <= (eff if not sparse else min(eff, dmax_stored))], nl)
         if centers is not None:
